@@ -35,8 +35,10 @@ RULE = ("histories = (a) one legacy grid: class in SingleGrid/MultiGrid/HexSingl
         "model, the oracle requires every view and every layer unchanged), interleaved with every reader: empties, empty_mask, is_cell_empty, "
         "exists_empty_cells, grid[x], grid[x,y], grid[(x1,y1),...], grid[x,a:b], grid[a:b,y], grid[a:b,c:d] (None/negative/oversized/"
         "crossed bounds), iteration, coord_iter, agents, get/iter_cell_list_contents (lists with repeats, the bare-tuple form), torus_adj, "
-        "torus_adj_2d; a third of the histories never read empties, a fifth read it first; a quarter hand coordinates over as NumPy "
-        "int64/int32 scalars; every read is asked twice, iterators are first started and abandoned half-way; a populated second grid "
+        "torus_adj_2d; a third of the histories never read empties, a fifth read it first; 42% hand coordinates over in a rare legal form "
+        "(NumPy int64/int32 scalars, bools for 0/1, an int subclass); list-taking calls with lengths crossing 1..257; a SCALE stream "
+        "(implementation+oracle only: 100x100..200x200 grids filled to just above the move_to_empty cutoff with 60-120 move_to_empty "
+        "calls, 2049 agents in one MultiGrid cell, 1025x3 / 2x4097 grids with coordinates beyond 256 / 65536 / 2**31); every read is asked twice, iterators are first started and abandoned half-way; a populated second grid "
         "of the same class is alive in the process; after the last call a fault sweep issues every applicable rejecting call; 9% are an "
         "ORACLE-ONLY stream (agents whose truth value is False, slices with positive/negative steps); (b) one NetworkGrid (1..6 nodes, "
         "1..5 agents incl. falsy ones): place/move/remove (also towards unknown nodes), is_cell_empty, get_cell_list_contents, "
@@ -63,7 +65,8 @@ TRUSTED_BASE = [
     "Uint63 primitive hash only in scratch Cases files, never under a theorem",
 ]
 ASSUMPTIONS = [
-    "coordinates are integers (Python ints of any size, or NumPy integer scalars below 2**31 - a NumPy position combined with an offer "
+    "coordinates are integers (Python ints of any size, bools for 0/1, an int subclass, or NumPy int64/int32 scalars below 2**31; "
+    "NumPy uint8 is not generated: unsigned subtraction inside _distance_squared wraps around, which is NumPy arithmetic, not the grid - a NumPy position combined with an offer "
     "beyond int64 raises NumPy's own OverflowError and is not generated; grid[x] with a NumPy scalar is rejected by the library and not "
     "generated); place_agent only for an unplaced agent at in-grid coordinates; movers/remove only for a placed agent; is_cell_empty / "
     "cell lists / layer cells only in-grid (these calls are outside the quantifier and skipped by driver and model alike)",
@@ -347,6 +350,13 @@ def _fixed_cases():
                            + [["mask"], ["empties"], ["move", 1, 1, 1]] + qs[54:] + [["query", ["nbmask", 1, 1, True, False, 1]], ["query", ["layer", 0, 1]],
                               ["query", ["empty_mask_twice"]], ["move_sel", 1, 1, True, "closest", 0, 0], ["move_sel", 2, 0, True, "random", 0, 0],
                               ["move_sel", 1, 1, False, "closest", 1, -5], ["mask"], ["exists"], ["remove", 2], ["query", ["select", 1, None, 0, True, True, 0, 0]], ["mask"]]))
+        # coordinates spelled as bools (values 0 / 1) and as an int subclass
+        for ct in ("bool", "sub"):
+            k = _mk(cls, 3, 3, False, 1, 2, [["place", 1, 1, 0], ["mask"], ["empties"], ["is_empty", 1, 0], ["move", 1, 0, 1], ["mask"], ["place", 2, 1, 1],
+                                             ["swap", 1, 2], ["mask"], ["move_one_of", 2, [[1, 0], [0, 0]], "closest", None], ["index", 1, 0],
+                                             ["query", ["select", 0, None, 0, True, True, 0, 0]], ["remove", 1], ["mask"], ["move_to_empty", 2], ["mask"], ["exists"]])
+            k["ctype"] = ct
+            out.append(k)
         # rejection-sampling branch of move_to_empty (needs > 31.5 empty cells of 36)
         out.append(_mk(cls, 6, 6, False, False, 2, [["place", 1, 2, 3], ["move_to_empty", 1], ["place", 2, 0, 0], ["move_to_empty", 2],
                                                     ["move_to_empty", 1], ["mask"]], rseed=3))
@@ -379,8 +389,13 @@ def gen_cases(rng, tier):
         mode = rng.choice(["nobuild", "nobuild", "buildfirst", "mixed", "mixed", "mixed"])
         ops = _gen_history(rng, cls, w, h, torus, nag, length, mode, nlayers=layers)
         k = _mk(cls, w, h, torus, layers, nag, ops, rseed=rng.randrange(1 << 30))
-        if rng.random() < 0.25:
+        r2 = rng.random()
+        if r2 < 0.2:
             k["np"] = True          # coordinates handed over as NumPy integer scalars (int64 / int32 mixed)
+        elif r2 < 0.34:
+            k["ctype"] = "bool"     # 0 / 1 handed over as False / True
+        elif r2 < 0.42:
+            k["ctype"] = "sub"      # an int subclass
         if rng.random() < 0.09:
             # oracle-only stream (the Z-valued model has no notion of these): agents whose truth value is False,
             # slices with a step (also negative = reversed)
@@ -407,7 +422,7 @@ def gen_cases(rng, tier):
         + [["cell_list", [3] * (n - 1) + [0]] for n in THRESHOLDS]})
     for _ in range(120 if tier == "quick" else 1500):
         cases.append(_gen_net(rng))
-    return cases
+    return cases + _scale_cases(tier)
 
 
 def gen_fault_cases(rng, tier):
@@ -419,7 +434,7 @@ def gen_fault_cases(rng, tier):
     grid = [c for c in cs if c["cls"] != "NetworkGrid"]
     fixed, rnd = grid[:len(_fixed_cases())], grid[len(_fixed_cases()):]
     k = 90 if tier == "quick" else 1200
-    return fixed + net[:(70 if tier == "quick" else 900)] + rnd[:k]
+    return fixed + net[:(70 if tier == "quick" else 900)] + [c for c in rnd if not c.get("scale")][:k] + [c for c in cs if c.get("scale")]
 
 
 def enumerate_cases(tier, broken=False):
@@ -429,6 +444,8 @@ def enumerate_cases(tier, broken=False):
     started from three placements (nothing placed / one placed / both placed)."""
     if broken:
         for k in _threshold_cases():
+            yield k
+        for k in _scale_cases(tier, broken=True):
             yield k
     depth = 3
     shapes = [(2, 2), (2, 1)] if tier == "thorough" else [(2, 1)]
@@ -683,7 +700,184 @@ def _gen_net(rng):
     return {"cls": "NetworkGrid", "nodes": nodes, "edges": edges, "n": n, "ops": ops}
 
 
+def _scale_cases(tier, broken=False):
+    """SCALE stream (implementation + oracle only): grids with a dimension in the hundreds that are ~97-99 % full (so that
+    move_to_empty still takes its rejection-sampling branch: the cutoff grows like cells**0.384), thousands of agents in
+    one MultiGrid cell, coordinates beyond 256 / 65536, handed over also as NumPy scalars"""
+    out = []
+    sizes = [(100, 100)] if tier == "quick" and not broken else [(100, 100), (150, 120), (200, 200)]
+    classes = ["SingleGrid", "MultiGrid"] if tier == "quick" and not broken else CLASSES
+    seeds = (1,) if tier == "quick" and not broken else (1, 2, 3)
+    for (w, h) in sizes:
+        for cls in classes:
+            for sd in seeds:
+                out.append({"cls": cls, "scale": "nearly_full", "w": w, "h": h, "torus": bool(sd % 2), "extra_free": 3 + 2 * sd,
+                            "moves": 120 if (w, h) == (100, 100) else 60, "rseed": 1000 * sd + w, "ops": []})
+    for cls in (["MultiGrid"] if tier == "quick" and not broken else ["MultiGrid", "HexMultiGrid"]):
+        out.append({"cls": cls, "scale": "heavy_cell", "w": 3, "h": 2, "torus": True, "count": 2049, "rseed": 5, "ops": []})
+    for cls in (["SingleGrid", "MultiGrid"] if tier == "quick" and not broken else CLASSES):
+        out.append({"cls": cls, "scale": "wide", "w": 1025, "h": 3, "torus": True, "rseed": 9, "ops": []})
+        if tier != "quick" or broken:
+            out.append({"cls": cls, "scale": "wide", "w": 2, "h": 4097, "torus": False, "rseed": 11, "ops": []})
+    return out
+
+
+def _run_scale(case):
+    import mesa
+    import numpy as np
+    from mesa import space
+
+    name, w, h, torus = case["cls"], case["w"], case["h"], case["torus"]
+    single = "Single" in name
+    failures = []
+
+    def fail(key, what):
+        failures.append({"key": key, "op": 0, "what": f"{name}({w}x{h}, torus={torus}) [scale stream {case['scale']}]: {what}"})
+    rng = _random.Random(case.get("rseed", 0))
+    with warnings.catch_warnings():
+        warnings.simplefilter("ignore")
+        model = mesa.Model(seed=case.get("rseed", 0))
+        g = getattr(space, name)(w, h, torus)
+    where = {}          # shadow: agent -> cell
+    holds = {}          # shadow: cell -> list of agents
+
+    def put(a, c):
+        where[a] = c
+        holds.setdefault(c, []).append(a)
+
+    def take(a):
+        c = where.pop(a)
+        holds[c].remove(a)
+        if not holds[c]:
+            del holds[c]
+        return c
+
+    def full_check(tag):
+        empt = {(x, y) for x in range(w) for y in range(h)} - set(holds)
+        if set(g.empties) != empt:
+            fail(f"C08/{name}/empties", f"{tag}: `empties` differs from the cells without agents in {len(set(g.empties) ^ empt)} cells")
+        m = g.empty_mask
+        wrong = [(x, y) for x in range(w) for y in range(h) if bool(m[x, y]) != ((x, y) in empt)]
+        if wrong:
+            fail(f"C08/{name}/empty_mask", f"{tag}: empty_mask is wrong at {len(wrong)} cells, e.g. {wrong[:3]}")
+        if g.exists_empty_cells() != bool(empt):
+            fail(f"C08/{name}/exists_empty_cells", f"{tag}: exists_empty_cells() = {g.exists_empty_cells()} with {len(empt)} empty cells")
+        bad = 0
+        for x in range(w):
+            col = g._grid[x]
+            for y in range(h):
+                content = col[y]
+                ids = [] if content is None else list(content) if isinstance(content, list) else [content]
+                if sorted(map(id, ids)) != sorted(map(id, holds.get((x, y), []))):
+                    bad += 1
+        if bad:
+            fail(f"C08/{name}/pos-contents-disagree", f"{tag}: {bad} cells do not hold the agents whose pos names them")
+        for a, c in where.items():
+            if a.pos is None or tuple(int(v) for v in a.pos) != c:
+                fail(f"C08/{name}/pos-contents-disagree", f"{tag}: an agent has pos {a.pos}, required {c}")
+                break
+
+    try:
+        with warnings.catch_warnings():
+            warnings.simplefilter("ignore")
+            if case["scale"] == "nearly_full":
+                cells = [(x, y) for x in range(w) for y in range(h)]
+                rng.shuffle(cells)
+                nfree = int(g.cutoff_empties) + 1 + case.get("extra_free", 3)      # just above the cutoff: the sampling branch
+                for c in cells[nfree:]:
+                    a = mesa.Agent(model)
+                    g.place_agent(a, c)
+                    put(a, c)
+                movers = rng.sample(list(where), case["moves"])
+                for k, a in enumerate(movers):
+                    was_empty_count = w * h - len(holds)
+                    try:
+                        g.move_to_empty(a)
+                    except Exception as e:  # noqa: BLE001
+                        fail(f"C08/{name}/move_to_empty/unexpected-exception",
+                             f"move_to_empty #{k} raised {type(e).__name__}: {e} although {was_empty_count} cells are empty; agent.pos is now {a.pos}")
+                        if a.pos is None:
+                            take(a)         # continue the final comparison from what the implementation left behind
+                            failures.append({"key": "C18/legacy-grid/move_to_empty", "op": 0,
+                                             "what": f"{name}({w}x{h}) [scale]: move_to_empty raised {e} and left the agent off the grid"})
+                        break
+                    old = take(a)
+                    new = tuple(int(v) for v in a.pos)
+                    if new in holds or new == old:
+                        fail(f"C08/{name}/move_to_empty/not-an-empty-cell",
+                             f"move_to_empty #{k} landed on {new}, which held {len(holds.get(new, []))} agent(s) (it was the agent's own cell: {new == old}); "
+                             f"{was_empty_count} of {w * h} cells were empty")
+                        put(a, new)
+                        break
+                    put(a, new)
+                full_check("after the move_to_empty calls")
+            elif case["scale"] == "heavy_cell":
+                n = case["count"]
+                ags = [mesa.Agent(model) for _ in range(n)]
+                for i, a in enumerate(ags):
+                    g.place_agent(a, (1, 1))
+                    put(a, (1, 1))
+                if len(g[1, 1]) != n or len(g.get_cell_list_contents([(1, 1)])) != n or len(g.agents) != n:
+                    fail(f"C08/{name}/readers-disagree", f"a cell with {n} agents is shown with {len(g[1, 1])} / {len(g.get_cell_list_contents([(1, 1)]))} / {len(g.agents)}")
+                for i in (0, 255, 256, 257, 1024, n - 1):
+                    g.move_agent(ags[i], (2 + 3 * i, -i))
+                    take(ags[i])
+                    put(ags[i], ((2 + 3 * i) % w, (-i) % h))
+                for i in (1, 512, 2047):
+                    g.remove_agent(ags[i])
+                    take(ags[i])
+                g.swap_pos(ags[0], ags[2])
+                c0, c2 = take(ags[0]), take(ags[2])
+                put(ags[0], c2)
+                put(ags[2], c0)
+                full_check(f"after moving / removing members of a cell with {n} agents")
+            elif case["scale"] == "wide":
+                # coordinates in the hundreds / thousands, also as NumPy scalars, beyond 256 (small-int cache) and 65536
+                spots = [(0, 0), (255, 1), (256, 2), (257, 0), (512, 1), (1000, 2), (1024, 0), (w - 1, h - 1), (300, 2), (301, 2)]
+                spots = [(x % w, y % h) for x, y in spots]
+                spots = list(dict.fromkeys(spots))
+                ags = []
+                for i, c in enumerate(spots):
+                    a = mesa.Agent(model)
+                    g.place_agent(a, (np.int64(c[0]), np.int32(c[1])) if i % 2 else c)
+                    put(a, c)
+                    ags.append(a)
+                full_check("after placing at large coordinates")
+                if torus:
+                    targets = [(w + 256, h), (-1, -1), (65536 + 5, 2 ** 31 + 1), (2 * w + 257, -h - 2), (1024 + w, 7)]
+                    for a, t in zip(ags, targets):
+                        dest = (t[0] % w, t[1] % h)
+                        if single and dest in holds and where[a] != dest:
+                            continue
+                        g.move_agent(a, t)
+                        take(a)
+                        put(a, dest)
+                    full_check("after moves with wrapped large targets")
+                a, b = ags[-1], ags[-2]
+                g.swap_pos(a, b)
+                ca, cb = take(a), take(b)
+                put(a, cb)
+                put(b, ca)
+                for a in ags[:3]:
+                    if not single or len(holds) < w * h:
+                        g.move_to_empty(a)
+                        old = take(a)
+                        new = tuple(int(v) for v in a.pos)
+                        if new in holds:
+                            fail(f"C08/{name}/move_to_empty/not-an-empty-cell", f"landed on occupied {new}")
+                        put(a, new)
+                col = g[where[ags[-1]][0]]
+                if len(col) != h:
+                    fail(f"C08/{name}/getitem/wrong-contents", f"grid[x] has {len(col)} entries, height is {h}")
+                full_check("at the end")
+    except Exception as e:  # noqa: BLE001
+        fail(f"C08/{name}/scale/unexpected-exception", f"{type(e).__name__}: {e}")
+    return {"obs": [], "failures": failures, "model": False}
+
+
 def run_impl(case):
+    if case.get("scale"):
+        return _run_scale(case)
     if case["cls"] == "NetworkGrid":
         return _run_net(case)
     import mesa
@@ -743,11 +937,21 @@ def run_impl(case):
     # and an unbounded Python int raises NumPy's own OverflowError, which is NumPy's limit, not the grid's
     use_np = bool(case.get("np")) and not _huge(case["ops"])
 
+    ctype = case.get("ctype") or ("np" if use_np else "int")
+
+    class MyInt(int):
+        """a user subclass of int"""
+
     def P1(v):
-        """the spelling of one integer coordinate handed to the API: a Python int or a NumPy integer scalar"""
-        if use_np and abs(v) < 2 ** 31:
+        """the spelling of one integer coordinate handed to the API: a Python int, a NumPy integer scalar, a bool where the
+        value is 0 / 1 (bool is an int subclass), an int subclass"""
+        if ctype == "np" and use_np and abs(v) < 2 ** 31:
             import numpy as np
             return np.int64(v) if v % 2 else np.int32(v)
+        if ctype == "bool" and v in (0, 1):
+            return bool(v)
+        if ctype == "sub":
+            return MyInt(v)
         return v
 
     def P(c):
@@ -1428,6 +1632,9 @@ def coq_case(case):
     if case["cls"] == "NetworkGrid":
         return (f"NetCase {{| nk_nodes := {L.zlist(case['nodes'])}; nk_n := {L.z(case['n'])}; "
                 f"nk_ops := {L.lst([_coq_nop(o) for o in ops])} |}}")
+    if case.get("scale"):     # implementation + oracle only: the model is not run on these (an empty history for replay files)
+        return (f"GridCase {{| k_cfg := {{| c_w := {L.z(case['w'])}; c_h := {L.z(case['h'])}; c_torus := {L.b(case['torus'])}; "
+                f"c_multi := {L.b('Multi' in case['cls'])} |}}; k_n := 0; k_layers := 0; k_ops := [] |}}")
     cfg = (f"{{| c_w := {L.z(case['w'])}; c_h := {L.z(case['h'])}; c_torus := {L.b(case['torus'])}; "
            f"c_multi := {L.b('Multi' in case['cls'])} |}}")
     return (f"GridCase {{| k_cfg := {cfg}; k_n := {L.z(case['n'])}; k_layers := {L.z(int(case.get('layers') or 0))}; "
@@ -1451,6 +1658,8 @@ def _coq_nop(op):
 
 def op_kinds(case):
     out = []
+    if case.get("scale"):
+        return [case["cls"] + ":scale/" + case["scale"]]
     if case["cls"] == "NetworkGrid":
         return ["NetworkGrid:" + op[0] for op in case["ops"]]
     for op in case["ops"]:
@@ -1492,6 +1701,8 @@ LEVEL_TEXT = ("44 machine-checked Coq theorems (12 non-vacuity Examples) over tw
               "implementation and supplies the failing input.")
 LEVEL_NOTE = ("Theorems are about the models (the code with the committed fixes C08-1 MultiGrid empty_mask, C08-2 SingleGrid.move_agent "
               "atomic, C08-3 toroidal _distance_squared, C08-4 NetworkGrid.move_agent atomic; plus 5b51fea _Grid.agents keeps falsy agents, "
+              "and fixes/C08-5 (empty_mask indexed with plain ints: bool coordinates) - until C08-5 is committed the check reports the bool-"
+              "coordinate defect on /repo (keys C08/<cls>/empty_mask and its consequences); "
               "found independently by the round-5 falsy-agent stream). One _refuted witness is kept on purpose: the inherited "
               "_Grid.move_agent is not atomic on a SingleGrid (why C08-2 exists). Oracle-only: falsy agents, stepped slices, argument "
               "non-mutation, repeatability, fault sweep. Trusted: Coq kernel, pyexpr + the two table modules, the DSL interpreter, the "
